@@ -136,7 +136,13 @@ func runBody(c *Case, prop func(*Case)) (msg string, failed bool) {
 				if strings.HasPrefix(tn, "rapid.") {
 					panic(r)
 				}
-				msg, failed = fmt.Sprintf("unrecovered panic in code under test: %v\n%s", r, debug.Stack()), true
+				stack := string(debug.Stack())
+				if harnessPanic(stack) {
+					// A bug of the harness itself is an infrastructure problem, never a verdict.
+					fmt.Printf("VERIF-HARNESS-ERROR panic in harness code: %v\n%s\n", r, stack)
+					os.Exit(3)
+				}
+				msg, failed = fmt.Sprintf("unrecovered panic in code under test: %v\n%s", r, stack), true
 			}
 		}
 	}()
@@ -206,6 +212,30 @@ func Run(t *testing.T, opts Opts, prop func(*Case)) {
 			rt.Fatalf("%s", msg)
 		}
 	})
+}
+
+// harnessPanic reports whether the innermost non-runtime frame of a panic stack
+// belongs to the harness (module "verif") rather than to the code under test.
+func harnessPanic(stack string) bool {
+	lines := strings.Split(stack, "\n")
+	seenPanic := false
+	for _, l := range lines {
+		if strings.HasPrefix(l, "\t") || l == "" {
+			continue
+		}
+		if strings.HasPrefix(l, "panic(") {
+			seenPanic = true
+			continue
+		}
+		if !seenPanic {
+			continue
+		}
+		if strings.HasPrefix(l, "runtime.") || strings.HasPrefix(l, "runtime/") {
+			continue
+		}
+		return strings.HasPrefix(l, "verif/")
+	}
+	return false
 }
 
 func firstLines(s string, n int) string {
